@@ -9,3 +9,4 @@ for f in sorted(glob.glob('/verif/evidence/*.json')):
     print('ok',f)
 print('manifest ok')
 PY
+./check list > /dev/null || exit 1
